@@ -257,7 +257,7 @@ pub fn draw_cfg(prop: Prop, r: &mut Rng) -> Cfg {
         r_hdr_pre,
         r_c04,
         strategy,
-        rx_variant: r.range(1, 4) as u8,
+        rx_variant: if prop == Prop::C06 { r.range(1, 4) as u8 } else { r.range(1, 5) as u8 },
         n_restarts,
         baud,
         poll_ns,
@@ -369,6 +369,21 @@ fn gen_lib(st: &mut Station, cfg: &Cfg, r: &mut Rng, built: bool) -> Option<Item
         }
     }
     None
+}
+
+/// CRC-valid frame whose payload is a real encoder payload cut 1..8 bytes short (or, rarely,
+/// extended by a few bytes): alone it decodes to Corrupt / a shorter message; what must not
+/// happen is that bytes BEHIND the frame complete it (C13.c)
+fn gen_truncated_lib(st: &mut Station, cfg: &Cfg, r: &mut Rng) -> Option<Item> {
+    let it = gen_lib(st, cfg, r, false)?;
+    let n = it.bytes.len();
+    let payload = &it.bytes[3..n - 3];
+    if payload.len() < 4 {
+        return None;
+    }
+    let k = (r.range(1, 8) as usize).min(payload.len() - 2);
+    let cut = &payload[..payload.len() - k];
+    Some(Item::new(format!("foreign:L={},r=0,truncated_{}_by_{}", cut.len(), it.label, k), "foreign", make_frame(0, cut), true))
 }
 
 fn gen_foreign(cfg: &Cfg, r: &mut Rng) -> Item {
@@ -600,7 +615,11 @@ pub fn gen_items(cfg: &Cfg, st: &mut Station, r: &mut Rng) -> Vec<Item> {
             } else {
                 x -= cfg.w_built;
                 if x < cfg.w_foreign {
-                    gen_foreign(cfg, r)
+                    if cfg.w_lib + cfg.w_built > 0 && r.chance(0.12) {
+                        gen_truncated_lib(st, cfg, r).unwrap_or_else(|| gen_foreign(cfg, r))
+                    } else {
+                        gen_foreign(cfg, r)
+                    }
                 } else {
                     x -= cfg.w_foreign;
                     if x < cfg.w_nearmiss {
